@@ -44,7 +44,7 @@ ASSUMPTIONS = [
     'is not a metric and is excluded)',
     'the near-pi grid stops at pi - 1e-6 and pi itself (exactly symmetric and rounding-level asymmetric half-turns both occur)',
 ]
-REQUIRED_CLASSES = ['kept-results', 'shared-memory-arguments', 'stack-sizes', 'stack-sign-patterns', 'containers:matrix', 'containers:quaternion', 'containers:quaternion-rows', 'pairs:group', 'pairs:conjugate', 'zero:same', 'zero:antipodal', 'angle:pi', 'angle:<1e-2',
+REQUIRED_CLASSES = ['stack-carriers', 'first-call:float16', 'first-call:float32', 'kept-results', 'shared-memory-arguments', 'stack-sizes', 'stack-sign-patterns', 'containers:matrix', 'containers:quaternion', 'containers:quaternion-rows', 'pairs:group', 'pairs:conjugate', 'zero:same', 'zero:antipodal', 'angle:pi', 'angle:<1e-2',
                     'angle:near-pi', 'inv:left', 'inv:right', 'triangle:tight', 'triangle:strict', 'triangle:geodesic',
                     'entry:single', 'entry:N-row', 'cf:right', 'cf:left']
 
@@ -565,6 +565,20 @@ def job_reuse(ctx, k):
             arrs = [r_ for r_ in kept if isinstance(r_, np.ndarray) and r_.size]
             ctx.expect(not any(np.shares_memory(arrs[a_], arrs[b_]) for a_ in range(len(arrs)) for b_ in range(a_ + 1, len(arrs))), f'{m}[N-row]: results of different calls share no memory', f'N={n} k{k}', 'shared', 'separate')
     ctx.cls('kept-results')
+    # (2b) N-row stacks carried by integer / single-precision arrays in EITHER position (exact quarter / half turns have integer elements): the
+    #      distances are real numbers - those of the float64 stacks (symmetry included)
+    cubeq = [g for g in A.G48() if np.allclose(rq.R(g), np.rint(rq.R(g)))]
+    Ri = np.array([np.rint(rq.R(g)) for g in cubeq[:6]]); Rg = np.array([rq.R(Sg[(3 * j + 1) % len(Sg)]) for j in range(6)])
+    refAB = np.asarray(M.chordal(Ri.copy(), Rg.copy()), float)
+    for cn, conv in (('int64', lambda X: X.astype(np.int64)), ('int8', lambda X: X.astype(np.int8)), ('float32', lambda X: X.astype(np.float32))):
+        for which in ('first', 'second'):
+            ctx.evals += 1
+            try:
+                v = np.asarray(M.chordal(conv(Ri), Rg.copy()) if which == 'first' else M.chordal(Rg.copy(), conv(Ri)), float)
+            except Exception as ex:
+                ctx.fail('chordal[N-row]: raises for an integer / single-precision stack', f'{cn} stack {which} k{k}', repr(ex)[:120], refAB); continue
+            ctx.expect(v.shape == refAB.shape and bool(np.all(np.abs(v - refAB) <= 1e-6)), 'chordal[N-row]: same distances whatever numeric type carries either stack', f'{cn} stack {which} k{k}', v, refAB, 1e-6)
+    ctx.cls('stack-carriers')
     # (3) two arguments that are views of ONE buffer (a matrix and its transpose, a DCM object and its inverse, a flipped view): different
     #     rotations - the distance is that of independent copies of the same numbers
     from ahrs import DCM
@@ -816,6 +830,33 @@ def job_sizes(ctx, k):
     ctx.sample({'stack_sizes': SIZES, 'scalings': [s[0] for s in scalings]})
 
 
+def _first_call_probe(dt):
+    """Executed in a process that has made NO metric call before: the first call is on reduced-precision arrays, then float64 pairs at small angles."""
+    import numpy as _np
+    from ahrs.utils import metrics as M_
+    from mc.ref import quat as rq_
+    p = rq_.qunit(_np.array([0.4, -0.3, 0.5, 0.7]))
+    M_.qdist(p.astype(dt), rq_.qmul(p, rq_.axang2q([1, 2, 3], 0.5)).astype(dt))
+    M_.chordal(rq_.R(p).astype(dt), _np.eye(3).astype(dt))
+    out = []
+    for t in (1e-4, 1e-3, 7.3e-3, 0.0123, 0.3):
+        q = rq_.qmul(p, rq_.axang2q([1.0, -2.0, 0.5], t))
+        out.append([t] + [float(getattr(M_, m)(p.copy(), q.copy())) for m in ('qdist', 'qeip', 'qcip', 'qad')] + [float(_np.asarray(M_.qad(_np.array([p, p]), _np.array([q, q])))[1])])
+    return out
+
+
+def job_first_call(ctx, dtname):
+    """What the FIRST metric call of a process was given (half / single precision arrays) does not change what later float64 calls answer."""
+    res = core.in_fresh_child(_first_call_probe, dtname)
+    for row in res:
+        t = row[0]
+        for nm, v in zip(('qdist', 'qeip', 'qcip', 'qad', 'qad[N-row]'), row[1:]):
+            ref = CF[nm.split('[')[0]](t)
+            ctx.evals += 1
+            ctx.expect(abs(v - ref) <= max(1e-7, 1e-6 * ref), f'{nm}: closed form in a process whose first metric call was on {dtname} arrays', f't={t:g}', v, ref, 1e-7)
+    ctx.cls('first-call:' + dtname)
+
+
 def job_nrow_matrix_note(ctx):
     """Not judged: what identity_deviation / angular_distance do with (N,3,3) input (documented for one 3x3 pair)."""
     S = A.Gl(A.G48(), 0)
@@ -875,6 +916,7 @@ def run(ctx):
     for pidx in range(len(P12())):
         jobs.append(('job_cf', (pidx,)))
     jobs.append(('job_nrow_matrix_note', ()))
+    jobs += [('job_first_call', ('float16',)), ('job_first_call', ('float32',))]
     jobs.append(('job_reuse', (A.seed_k(ctx.seed) if not ctx.thorough else 0,)))
     for kk in (ks if ctx.thorough else ks[:1]):
         jobs.append(('job_containers', (kk,)))
